@@ -181,6 +181,9 @@ fn run_both(cx: &Cx, c20: bool) -> Acc {
     let mut acc = Acc::new();
     let n = cx.tier.pick(1u64, 15u64);
     acc.merge(par_proptest(cx, "serve", 150_000 * n, serve_strategy, |c, acc| check_serve(c, acc, c20)));
+    // Multipart answers with small parts on entities of every size (C06's generator): bodies that
+    // are drained to their end even when the entity is astronomically large.
+    acc.merge(par_proptest(cx, "serve-multipart", 50_000 * n, crate::props::c06::case_strategy, |c, acc| check_serve(c, acc, c20)));
     let max_len = cx.tier.pick(7u32, 9u32);
     let max_chunks = cx.tier.pick(4usize, 5usize);
     let units: Vec<u32> = (1..=max_len).collect();
@@ -219,7 +222,7 @@ fn replay_both(cx: &Cx, phase: &str, case: &Value, acc: &mut Acc, c20: bool) -> 
         msg: e.to_string(),
     };
     match phase {
-        "serve" => check_serve(&serde_json::from_value(case.clone()).map_err(dec)?, acc, c20),
+        "serve" | "serve-multipart" => check_serve(&serde_json::from_value(case.clone()).map_err(dec)?, acc, c20),
         "fault-enumeration" | "fault-random" => check_fault(&serde_json::from_value(case.clone()).map_err(dec)?, acc, c20),
         "sched-sampled" => {
             let c: crate::sched::SchedCase = serde_json::from_value(case.clone()).map_err(dec)?;
